@@ -4,11 +4,15 @@ import (
 	"encoding/hex"
 	"errors"
 	"fmt"
+	"go/ast"
+	"go/parser"
+	"go/token"
 	"io/fs"
 	"math/rand"
 	"os"
 	"path/filepath"
 	"sort"
+	"strconv"
 	"strings"
 	"time"
 
@@ -52,6 +56,13 @@ var baseTree = []srcFile{
 	{path: "src/k/conf.d/extra.cfg", mode: 0o644, data: "extra", mtime: 1600000044},
 	{path: "src/k/conf.d/deep", dir: true, mode: 0o755, mtime: 1600000045},
 	{path: "src/k/conf.d/deep/z.cfg", mode: 0o644, data: "z", mtime: 1600000046},
+	// links the OS cannot follow (a loop, a path through a regular file) and links whose target is not lexically clean
+	{path: "src/odd", dir: true, mode: 0o755, mtime: 1600000050},
+	{path: "src/odd/a.txt", mode: 0o644, data: "a", mtime: 1600000051},
+	{path: "src/odd/self", link: "self"},
+	{path: "src/odd/through-file", link: "a.txt/inner"},
+	{path: "src/odd/dotrel", link: "./a.txt"},
+	{path: "src/odd/doubled", link: "..//odd/a.txt"},
 }
 
 func materialise(root string, tree []srcFile) {
@@ -384,6 +395,10 @@ var c05KindsMore = []entrySpec{
 	{files.TypeFile, "src/k"},
 	{files.TypeFile, "src/k/conf.d/**"},
 	{files.TypeFile, "src/[dh]/x"},
+	{"", "src/odd/*"},
+	{files.TypeFile, "src/odd"},
+	{files.TypeTree, "src/odd"},
+	{files.TypeConfig, "src/odd/self"},
 }
 
 func mkEntry(k entrySpec, dst, pk string, fi int) *files.Content {
@@ -395,6 +410,11 @@ func mkEntry(k entrySpec, dst, pk string, fi int) *files.Content {
 		c.FileInfo = &files.ContentFileInfo{Mode: 0o600}
 	case 3:
 		c.FileInfo = &files.ContentFileInfo{Owner: "alice"}
+	case 4:
+		// a mode whose decimal spelling (755) looks like an octal mode: a number like any other
+		c.FileInfo = &files.ContentFileInfo{Mode: 0o1363}
+	case 5:
+		c.FileInfo = &files.ContentFileInfo{Mode: 0o1204, Group: "adm"}
 	}
 	return c
 }
@@ -450,7 +470,7 @@ func genC05(tier string, seed int64, w *caseWriter, st *c05Stats) {
 		var es []*files.Content
 		for j := 0; j < 3; j++ {
 			a := universe[rng.Intn(len(universe))]
-			es = append(es, mkEntry(a.k, a.dst, a.pk, rng.Intn(4)))
+			es = append(es, mkEntry(a.k, a.dst, a.pk, rng.Intn(6)))
 		}
 		emit(es, packagers[rng.Intn(len(packagers))], 0o022, fixedMT, false, "t")
 	}
@@ -473,7 +493,7 @@ func genC05(tier string, seed int64, w *caseWriter, st *c05Stats) {
 			if rng.Intn(8) == 0 {
 				d = randSpelling(rng, 1+rng.Intn(8))
 			}
-			es = append(es, mkEntry(k, d, rpk[rng.Intn(len(rpk))%(1+rng.Intn(len(rpk)))], rng.Intn(4)))
+			es = append(es, mkEntry(k, d, rpk[rng.Intn(len(rpk))%(1+rng.Intn(len(rpk)))], rng.Intn(6)))
 		}
 		mt := fixedMT
 		if rng.Intn(4) == 0 {
@@ -516,6 +536,74 @@ func genC05ChangingTree(w *caseWriter, st *c05Stats) {
 	for i, fs := range states {
 		for _, pk := range []string{"deb", "rpm"} {
 			runC05Case(w, c05Case{id: fmt.Sprintf("changing-tree-%d-%s", i, pk), entries: entries(), umask: 0o022, packager: pk, mtime: fixedMT, files: fs}, st)
+		}
+	}
+}
+
+// systemPaths: every absolute path that files/fs.go of the repository under test spells in a string literal - the
+// tables of directories "owned by the file system" (read from the source, so a table that is split, merged or
+// re-ordered is still covered entry by entry)
+func systemPaths() []string {
+	fset := token.NewFileSet()
+	f, err := parser.ParseFile(fset, filepath.Join(repoDir(), "files", "fs.go"), nil, 0)
+	if err != nil {
+		return nil
+	}
+	seen := map[string]bool{}
+	var out []string
+	ast.Inspect(f, func(n ast.Node) bool {
+		if l, ok := n.(*ast.BasicLit); ok && l.Kind == token.STRING {
+			if v, err := strconv.Unquote(l.Value); err == nil && strings.HasPrefix(v, "/") && !seen[v] && !strings.ContainsAny(v, "*?[ ") {
+				seen[v] = true
+				out = append(out, v)
+			}
+		}
+		return true
+	})
+	sort.Strings(out)
+	return out
+}
+
+// trees that replicate system directories: every directory the repository's tables name must come out as an
+// IMPLIED directory (so that two packages, or two trees, can share it), every other one as a declared directory
+func genC05SystemTrees(w *caseWriter, st *c05Stats) {
+	fixedMT := time.Unix(1700000000, 0).UTC()
+	paths := systemPaths()
+	if len(paths) == 0 {
+		return
+	}
+	var all []extraFile
+	for _, p := range paths {
+		all = append(all, extraFile{Path: "src/sysall" + p + "/.keep", Hex: "", Mode: 0o644, MTime: 1650000300})
+	}
+	all = append(all, extraFile{Path: "src/sysall/opt/vendor/app/bin/tool", Hex: "74", Mode: 0o755, MTime: 1650000300},
+		extraFile{Path: "src/sysall/etc/vendor.d/app.conf", Hex: "63", Mode: 0o644, MTime: 1650000300})
+	for _, pk := range []string{"", "rpm", "deb"} {
+		runC05Case(w, c05Case{id: "system-tree-all-" + pk, entries: []*files.Content{{Source: "src/sysall", Destination: "/", Type: files.TypeTree}},
+			umask: 0o022, packager: pk, mtime: fixedMT, files: all}, st)
+	}
+	// two trees that meet in one system directory, and a declared directory before / after a tree that implies it;
+	// one case per table entry that is at most three levels deep (quick enough, and covers both tables)
+	n := 0
+	for _, p := range paths {
+		if strings.Count(p, "/") > 3 {
+			continue
+		}
+		n++
+		one := []extraFile{{Path: "src/sysone" + p + "/one.conf", Hex: "31", Mode: 0o644, MTime: 1650000301}}
+		two := []extraFile{{Path: "src/systwo" + p + "/two.conf", Hex: "32", Mode: 0o644, MTime: 1650000302}}
+		both := append(append([]extraFile{}, one...), two...)
+		pk := []string{"rpm", "deb", ""}[n%3]
+		runC05Case(w, c05Case{id: fmt.Sprintf("system-two-trees-%d", n), entries: []*files.Content{
+			{Source: "src/sysone", Destination: "/", Type: files.TypeTree}, {Source: "src/systwo", Destination: "/", Type: files.TypeTree}},
+			umask: 0o022, packager: pk, mtime: fixedMT, files: both}, st)
+		if n%4 == 0 {
+			runC05Case(w, c05Case{id: fmt.Sprintf("system-dir-after-tree-%d", n), entries: []*files.Content{
+				{Source: "src/sysone", Destination: "/", Type: files.TypeTree}, {Destination: p, Type: files.TypeDir}},
+				umask: 0o022, packager: pk, mtime: fixedMT, files: one}, st)
+			runC05Case(w, c05Case{id: fmt.Sprintf("system-dir-before-tree-%d", n), entries: []*files.Content{
+				{Destination: p, Type: files.TypeDir}, {Source: "src/sysone", Destination: "/", Type: files.TypeTree}},
+				umask: 0o022, packager: pk, mtime: fixedMT, files: one}, st)
 		}
 	}
 }
@@ -574,6 +662,7 @@ func cmdC05(tier string, seed int64, out string, statsOut string, replay string)
 		runCorpus("C05", w, st)
 		genPathCases(tier, w, st)
 		genC05ChangingTree(w, st)
+		genC05SystemTrees(w, st)
 		genC05(tier, seed, w, st)
 	}
 	w.close()
